@@ -1,11 +1,17 @@
 pub mod c01;
 pub mod c02;
+pub mod byz;
+pub mod c03;
+pub mod c04;
+pub mod c05;
+pub mod c06;
 pub mod c07;
 pub mod c08;
 pub mod c09;
 pub mod c10;
 pub mod c11;
 pub mod c12;
+pub mod c16;
 pub mod c18;
 pub mod c20;
 
@@ -24,12 +30,17 @@ pub fn spec(id: &str) -> Option<CheckSpec> {
     match id {
         "C01" => Some(c01::spec()),
         "C02" => Some(c02::spec()),
+        "C03" => Some(c03::spec()),
+        "C04" => Some(c04::spec()),
+        "C05" => Some(c05::spec()),
+        "C06" => Some(c06::spec()),
         "C07" => Some(c07::spec()),
         "C08" => Some(c08::spec()),
         "C09" => Some(c09::spec()),
         "C10" => Some(c10::spec()),
         "C11" => Some(c11::spec()),
         "C12" => Some(c12::spec()),
+        "C16" => Some(c16::spec()),
         "C18" => Some(c18::spec()),
         "C20" => Some(c20::spec()),
         _ => None,
